@@ -82,14 +82,14 @@ pub fn run_c12(tier: Tier) -> i32 {
         for found in &result.found {
             let v = &found.violation;
             if v.property == "MACHINERY" { report.machinery_errors.push(format!("{}: {}", v.signature, v.detail)); continue; }
-            if v.property != "C12" { report.add_count("violations_of_other_properties_seen", 1); continue; }
+            if v.property != "C12" { report.add_count("violations_of_other_properties_seen", 1); }
             if let Some(k) = known.matches(v) { report.known_hit.insert((v.property.clone(), format!("{} [{}]", k.what_fails, k.signature))); continue; }
             if report.violations.iter().any(|(x, _)| x.signature == v.signature) { continue; }
             let signature = (v.property.clone(), v.signature.clone());
             let mut v2 = v.clone();
             if let Err(problem) = confirm::<LWorld>(&cfg, &found.history, &signature, found.in_closure) { v2.detail = format!("{} [replay note: {}]", v2.detail, problem); }
             let body = json!({"kind": "lifecycle-history", "tier": tier.name(), "config_index": index, "config": cfg.describe(), "history": found.history.iter().map(|e| e.to_text()).collect::<Vec<_>>(), "then_fair_closure": found.in_closure, "property": v.property, "signature": v.signature, "detail": v.detail});
-            let path = write_replay("C12", &v.signature, &body);
+            let path = write_replay(&v.property, &v.signature, &body);
             report.violations.push((v2, path));
         }
     }
